@@ -169,9 +169,9 @@ _mass_cache = {}
 
 
 def _mass_of_token(tok):
-    k = id(tok)
+    k = tok.generate_smiles_fragment()          # by content: object ids are reused between molecules of one worker
     if k not in _mass_cache:
-        m = Chem.MolFromSmiles(tok.generate_smiles_fragment())
+        m = Chem.MolFromSmiles(k)
         _mass_cache[k] = rdDescriptors.HeavyAtomMolWt(m) if m is not None else float("nan")
     return _mass_cache[k]
 
